@@ -308,6 +308,9 @@ func isResultOf(x ssa.Value, c *ssa.Call, ei int, depth int) bool {
 }
 
 // reflectTypeOfStatic: v is reflect.TypeOf(MakeInterface(z:T)) (possibly through a local) -> T.
+// ReflectTypeOfStatic: v is reflect.TypeOf(<value of a statically known non-interface type>); returns that type.
+func ReflectTypeOfStatic(v ssa.Value) types.Type { return reflectTypeOfStatic(v) }
+
 func reflectTypeOfStatic(v ssa.Value) types.Type {
 	c, ok := v.(*ssa.Call)
 	if !ok || StaticCalleeName(&c.Call) != "reflect.TypeOf" || len(c.Call.Args) != 1 {
